@@ -29,6 +29,7 @@ Definition out_beq (a b : ot) : bool :=
   | ORes x, ORes y => Bool.eqb x y
   | OCtx, OCtx => true
   | OFlush d, OFlush e => list_beq dent_beq d e
+  | OFlushF d, OFlushF e => list_beq dent_beq d e
   | OHandle x, OHandle y => option_beq Bool.eqb x y
   | OVal x, OVal y => option_beq N.eqb x y
   | OLookup x, OLookup y => Bool.eqb x y
@@ -40,6 +41,7 @@ Definition is_res (o : ot) : bool := match o with ORes _ => true | _ => false en
 Definition R (now_ns : N) : ev := ERefresh (Z.of_N now_ns).
 Definition Q (n : name) (fail full : bool) : ev := EReq n fail full.
 Definition E_ : ev := EEnd.
+Definition EF : ev := EEndF.
 Definition SS (n : name) (v b : N) : ev := ESrv (SSet n v b).
 Definition SD (n : name) : ev := ESrv (SDel n).
 Definition H (n : name) : ev := ESecret n.
@@ -56,18 +58,23 @@ Definition os (ok : bool) : ot := ORes ok.
 Definition oc : ot := OCtx.
 Definition D (n : name) (v b last : N) : doc_entry N := (n, Some (v, b, Z.of_N last)).
 Definition ofl (d : list (doc_entry N)) : ot := OFlush d.
+Definition off (d : list (doc_entry N)) : ot := OFlushF d.
 Definition oh (h : option bool) : ot := OHandle h.
 Definition ov (v : option N) : ot := OVal v.
 Definition ol (ok : bool) : ot := OLookup ok.
 
 (* an observed step: the event, whether Refresh results are observable (not for ticker polls),
    the observed outputs *)
-Inductive ostep := St (e : ev) (o : list ot) | Sb (e : ev) (o : list ot).
+(* Sf: a step (lookup, shutdown, construction) whose Cache.Write failed: store.go only logs that
+   error, so the model's outputs are the same with the write marked as failed *)
+Inductive ostep := St (e : ev) (o : list ot) | Sb (e : ev) (o : list ot) | Sf (e : ev) (o : list ot).
+Definition markf (o : ot) : ot := match o with OFlush d => OFlushF d | x => x end.
 
 Inductive case :=
 | Scn (names : list name) (cache : option (list (name * (N * N * N)))) (sv0 : list (name * (N * N)))
       (now_s : N) (allow : bool) (age_ns : N) (init_out : list ot) (steps : list ostep)
-| Cad (i t0 : N) (ticks : list N).
+| Cad (i t0 : N) (ticks : list N)
+| Cad2 (i t0 : N) (polls : list (N * N)).   (* observed (start, end) instants of consecutive polls *)
 
 Definition mk_cache (l : list (name * (N * N * N))) : @smap name (rentry N) :=
   fold_left (fun acc '(n, (v, b, t)) => upd n (Some (Some (v, b), Z.of_N t)) acc) l [].
@@ -93,14 +100,15 @@ Fixpoint steps_ok (w : world N) (l : list ostep) : bool :=
   match l with
   | [] => true
   | s :: r =>
-    let '(e, strict, obs) := match s with St e o => (e, true, o) | Sb e o => (e, false, o) end in
+    let '(e, strict, obs, wf) := match s with St e o => (e, true, o, false) | Sb e o => (e, false, o, false) | Sf e o => (e, true, o, true) end in
     let pre := match e, wfl w with
-               | EEnd, Some fl => well_requested fl
-               | EEnd, None => false
+               | EEnd, Some fl | EEndF, Some fl => well_requested fl
+               | EEnd, None | EEndF, None => false
                | EReq _ _ _, None => false
                | _, _ => true
                end in
-    let '(w', mo) := step w e in
+    let '(w', mo0) := step w e in
+    let mo := if wf : bool then map markf mo0 else mo0 in
     let same := if strict : bool then list_beq out_beq mo obs
                 else list_beq out_beq (filter (fun o => negb (is_res o)) mo) (filter (fun o => negb (is_res o)) obs)
                      && forallb (fun o => negb (is_res o) || existsb (out_beq o) mo) obs in
@@ -113,4 +121,5 @@ Definition check (c : case) : bool :=
     let '(w, o) := construct names (option_map mk_cache cache) (mk_server sv0) (Z.of_N now_s) allow (Z.of_N age) in
     list_beq out_beq o io && steps_ok w steps
   | Cad i t0 ticks => cadence_ok (Z.of_N i) (Z.of_N t0) (map Z.of_N ticks)
+  | Cad2 i t0 polls => cadence2_ok (Z.of_N i) (Z.of_N t0) (map (fun '(a, b) => (Z.of_N a, Z.of_N b)) polls)
   end.
